@@ -716,11 +716,11 @@ func c13GetHeadersCheck(c *Ctx, t *tree, name string, ctx []string, op string, l
 	}
 	if got != strings.Join(want, ",") {
 		c.R.Fail(lib.Failure{Case: name, Ops: append(append([]string{}, ctx...), op), What: "getheaders answer is not the longest-chain segment after the highest longest-chain locator entry up to the stop hash (max 2000)",
-			Expected: abbreviate(strings.Join(want, ",")), Observed: abbreviate(out), Signature: sig})
+			Expected: abbrevMid(strings.Join(want, ",")), Observed: abbrevMid(out), Signature: sig})
 	}
 }
 
-func abbreviate(s string) string {
+func abbrevMid(s string) string {
 	if len(s) > 400 {
 		return s[:200] + "…" + s[len(s)-150:]
 	}
